@@ -7,17 +7,42 @@ import tempfile
 VERIF = os.path.dirname(os.path.dirname(os.path.abspath(__file__)))
 
 
+OBLIGATIONS = {
+    "C16": ["c16_normalize_idempotent", "c16_normalize_layout_insensitive", "c16_normalize_continuation_colon"],
+    "C03": ["c03_macro_inv_predicate"],
+}
+
+
 def _engine_s(prop, tier, seed, workdir):
-    out = os.path.join(workdir, "engine_s_%s.json" % prop)
-    cap = 1500 if tier == "quick" else 7200
-    try:
-        p = subprocess.run(["python3-vt", os.path.join(VERIF, "lib", "engine_s.py"), "--prop", prop, "--tier", tier,
-                            "--out", out], stdout=subprocess.PIPE, stderr=subprocess.STDOUT, text=True, timeout=cap)
-    except subprocess.TimeoutExpired:
-        return {"engine": "S", "inconclusive": ["Engine S timed out after %d s" % cap]}
-    if not os.path.exists(out):
-        return {"engine": "S", "inconclusive": ["Engine S crashed: " + p.stdout[-500:]]}
-    r = json.load(open(out))
+    """One Engine S process per obligation, in parallel; results merged."""
+    from concurrent.futures import ThreadPoolExecutor
+    cap = 1500 if tier == "quick" else 10800
+
+    def one(name):
+        out = os.path.join(workdir, "engine_s_%s_%s.json" % (prop, name))
+        try:
+            p = subprocess.run(["python3-vt", os.path.join(VERIF, "lib", "engine_s.py"), "--prop", prop, "--tier", tier,
+                                "--only", name, "--out", out], stdout=subprocess.PIPE, stderr=subprocess.STDOUT,
+                               text=True, timeout=cap)
+        except subprocess.TimeoutExpired:
+            return {"engine": "S", "inconclusive": ["Engine S obligation %s timed out after %d s" % (name, cap)]}
+        if not os.path.exists(out):
+            return {"engine": "S", "inconclusive": ["Engine S crashed on %s: %s" % (name, p.stdout[-500:])]}
+        return json.load(open(out))
+
+    with ThreadPoolExecutor(max_workers=4) as ex:
+        parts = list(ex.map(one, OBLIGATIONS.get(prop, [])))
+    r = {"engine": "S", "obligations": 0, "discharged": 0, "queries": 0, "solver_s": 0.0, "inconclusive": [],
+         "samples": [], "details": [], "violations_raw": [], "functions": [], "translator_validation": None}
+    for part in parts:
+        for k in ("obligations", "discharged", "queries", "solver_s"):
+            r[k] += part.get(k, 0)
+        for k in ("inconclusive", "samples", "details", "violations_raw"):
+            r[k] += part.get(k, [])
+        for f in part.get("functions", []):
+            if f not in r["functions"]:
+                r["functions"].append(f)
+        r["translator_validation"] = part.get("translator_validation", r["translator_validation"])
     # turn raw (natively confirmed) violations into replay records / known findings
     known = []
     kf = os.path.join(VERIF, "known_findings.json")
